@@ -71,6 +71,20 @@ pub fn diff_pair(uni: &Universe, x: &dyn Subj, y: &dyn Subj, writer: &str, acc: 
             }
         }
     }
+    for file in &uni.files_derived {
+        for class in &uni.classes {
+            for method in &uni.methods {
+                for &line in &uni.lines_short {
+                    x.remap_frame(class, method, line, Some(file), None, &mut a);
+                    y.remap_frame(class, method, line, Some(file), None, &mut b);
+                    acc.observations += 1;
+                    if a != b {
+                        bad!("byline", json!({"kind":"byline","class":class,"method":method,"line":line as u64,"file":file}), fr_json(&a), fr_json(&b));
+                    }
+                }
+            }
+        }
+    }
     let (texts, sigs) = state_texts(uni);
     for t in &texts {
         let (p, c) = (x.remap_stacktrace(t), y.remap_stacktrace(t));
@@ -83,12 +97,12 @@ pub fn diff_pair(uni: &Universe, x: &dyn Subj, y: &dyn Subj, writer: &str, acc: 
     // mapping does not know the pinned 5.5.0 release drops the exception (defect D2, repaired in the
     // current tree by the "fix: remap_stacktrace_typed keeps ..." commit, property C08); that difference
     // is independent of the file's bytes and is not what C10 is about.
-    let known: Vec<&String> = uni.classes.iter().filter(|c| x.remap_class(c).is_some()).take(4).collect();
+    let known: Vec<&String> = uni.classes.iter().filter(|c| c.len() < 1000 && x.remap_class(c).is_some()).take(4).collect();
     let mut typed_text = String::new();
     for (i, c) in known.iter().enumerate() {
         typed_text.push_str(&if i == 0 { format!("{}: boom\n", c) } else { format!("Caused by: {}: inner {}\n", c, i) });
-        for cls in uni.classes.iter().take(4) {
-            for m in uni.methods.iter().take(4) {
+        for cls in uni.classes.iter().filter(|c| c.len() < 1000).take(4) {
+            for m in uni.methods.iter().filter(|c| c.len() < 1000).take(4) {
                 for l in uni.lines_short.iter() {
                     typed_text.push_str(&format!("    at {}.{}(F.java:{})\n", cls, m, l));
                 }
@@ -198,6 +212,7 @@ pub fn run(tier: Tier) -> i32 {
         Box::new(crate::families::scale_family(true)),
         Box::new(crate::families::unicode_family()),
         Box::new(crate::families::relation_family()),
+        Box::new(crate::families::giant_family()),
     ];
     let corpus = corpus_files();
     let mut items = Vec::new();
